@@ -275,7 +275,8 @@ impl Scenario for AeadFlow {
         let big = tier == Tier::Thorough || rng.chance(1, 12);
         let naad = rng.range(0, 3);
         for _ in 0..naad {
-            t.ops.push(Op::new(0, F_AAD).len(aead_len(rng, big)).seed(rng.data_seed()).off(rng.below(32) as u8));
+            let dseed = match rng.below(10) { 0 => 0, 1 => 1, _ => rng.data_seed() };
+            t.ops.push(Op::new(0, F_AAD).len(aead_len(rng, big)).seed(dseed).off(rng.below(32) as u8));
         }
         let mut handles = 1u8;
         let ndata = rng.range(0, 5);
